@@ -138,9 +138,17 @@ impl MapSnap {
         fwd.sort();
         rev.sort();
         if fwd != rev {
-            let only_f: Vec<&String> = fwd.iter().filter(|x| !rev.contains(x)).collect();
-            let only_r: Vec<&String> = rev.iter().filter(|x| !fwd.contains(x)).collect();
-            return Some(format!("usage_by_fixture does not mirror usages: only-usages={:?} only-reverse={:?}", only_f, only_r));
+            // multiset difference (an entry recorded twice on one side shows up here)
+            let mut only_f: Vec<String> = vec![];
+            let mut rest = rev.clone();
+            for x in &fwd {
+                if let Some(p) = rest.iter().position(|y| y == x) {
+                    rest.remove(p);
+                } else {
+                    only_f.push(x.clone());
+                }
+            }
+            return Some(format!("usage_by_fixture does not mirror usages: only-usages={:?} only-reverse={:?}", only_f, rest));
         }
         None
     }
